@@ -54,6 +54,19 @@ impl Out {
             self.swept += 1;
             let key = format!("swept {}", op.split(' ').take(2).collect::<Vec<_>>().join(" "));
             *self.hist.entry(key).or_insert(0) += 1;
+            // a module that reports a caught panic on one of its own lines (token PANIC / PANIC:…
+            // in the request or in the library's answer) must not lose it in the sweep
+            let has_panic = |t: &str| t.split(|c: char| c == ' ' || c == ';' || c == ',' || c == '|').any(|w| w == "PANIC" || w.starts_with("PANIC:") || w.starts_with("PANIC("));
+            // (typed constructor arguments are not one of C11's input channels: C12's `keyonly` /
+            // `keyok` lines, where Descriptor::new_pk(<x-only>) is a recorded observation, stay out)
+            let constructor_line = op.starts_with("C keyonly") || op.starts_with("J keyok");
+            if !constructor_line && (has_panic(op) || has_panic(ans)) {
+                let tag: String = op.split(' ').filter(|w| *w != "PANIC").collect::<Vec<_>>().join("_");
+                let short: String = tag.chars().take(400).collect();
+                writeln!(self.ops, "J nopanic swept-line {} PANIC", short).unwrap();
+                writeln!(self.imp, "ok").unwrap();
+                self.n_lines += 1;
+            }
             return;
         }
         writeln!(self.ops, "{}", op).unwrap();
